@@ -9,6 +9,7 @@ normaliser; the clauses the real pass violates are refuted by `decide` witnesses
 (each reproduced on the real code by the harness and listed in known_findings.json).
 -/
 import Comrak.Lemmas.Anchor
+import Comrak.Lemmas.AnchorMemo
 import Comrak.Lemmas.Footnotes
 import Comrak.Lemmas.FootnotesGen
 namespace Comrak.C15
@@ -229,5 +230,105 @@ theorem rootPlain_needed :
 /-- Idempotence of `keep` is not among the hypotheses: the witness of the repaired defect satisfies them. -/
 example : rootPlain W.nbsp = true ∧ leafRefsT W.nbsp = true ∧ noNestedDefs W.nbsp = true ∧
     noRefInDropped nbspNorm W.nbsp = true ∧ labelsCompat nbspNorm W.nbsp = true := by decide
+
+end Comrak.C15
+
+/-! ## Heading anchors: the code as it is (memoised `Anchorizer`, /repo commit 70a0ef9)
+
+`anchorizeMemo` (Comrak/Anchor.lean) follows `Anchorizer::anchorize` with its `HashMap<String, usize>` statement by
+statement and is what the driver's `anchors` command runs against the real `Anchorizer`.  The theorems below
+show that it refines the set-based `anchorize` above, so everything proved of that specification holds of the
+code as it is, and that its probes are linear in the number of headings where the set-based loop (the code
+before the repair) is quadratic. -/
+namespace Comrak.C15
+open Comrak Bytes
+
+/-- The empty map and the empty set are related (a fresh `Anchorizer`). -/
+theorem memoInv_empty : MemoInv [] [] := memoInv_nil
+
+/-- `MemoInv m issued`, spelled out: the keys of the map are the issued anchors, and for a key `k` with stored
+    counter `v` all of `k`, `k-1`, ..., `k-(v-1)` are keys. -/
+theorem memoInv_iff (m : AnchorMap) (issued : List Bytes) :
+    MemoInv m issued ↔
+      (∀ k, m.containsKey k = true ↔ k ∈ issued) ∧
+      (∀ k v, m.get k = some v → ∀ j, j < v → m.containsKey (anchorCand k j) = true) :=
+  ⟨fun h => ⟨h.keys, h.taken⟩, fun h => ⟨h.1, h.2⟩⟩
+
+/-- **The memoised `anchorize` refines the set-based one**: from related states it returns the same anchor, and
+    the new states are related again. -/
+theorem anchorizeMemo_refines (nt : NormTable) (m : AnchorMap) (issued : List Bytes) (header : Bytes)
+    (h : MemoInv m issued) :
+    (anchorizeMemo nt m header).1 = (anchorize nt issued header).1 ∧
+    MemoInv (anchorizeMemo nt m header).2 (anchorize nt issued header).2 :=
+  anchorizeMemo_refines_aux nt m issued header h
+
+/-- Whole heading sequences from related states: the same list of anchors. -/
+theorem anchorizeMemoFrom_refines (nt : NormTable) (m : AnchorMap) (issued : List Bytes) (hs : List Bytes)
+    (h : MemoInv m issued) : anchorizeMemoFrom nt m hs = anchorizeFrom nt issued hs :=
+  anchorizeMemoFrom_eq nt hs m issued h
+
+/-- **One fresh `Anchorizer` as it is issues exactly the anchors of the specification**, for every
+    normalisation table and every list of heading texts. -/
+theorem anchorizeMemoAll_eq_spec (nt : NormTable) (hs : List Bytes) : anchorizeMemoAll nt hs = anchorizeAll nt hs :=
+  anchorizeMemoFrom_eq nt hs [] [] memoInv_nil
+
+/-- **Heading anchors of the code as it is are pairwise distinct.** -/
+theorem anchors_pairwise_distinct_memo (nt : NormTable) (hs : List Bytes) : (anchorizeMemoAll nt hs).Nodup := by
+  rw [anchorizeMemoAll_eq_spec]
+  exact anchors_pairwise_distinct nt hs
+
+/-- The anchor the code returns was not a key, and it is the normalised text itself unless that is a key, and
+    then the one with the smallest free `-N` (although the loop starts at the stored counter, not at 0). -/
+theorem anchorizeMemo_fresh_smallest (nt : NormTable) (m : AnchorMap) (issued : List Bytes) (header : Bytes)
+    (h : MemoInv m issued) :
+    m.containsKey (anchorizeMemo nt m header).1 = false ∧
+    ∃ k, (anchorizeMemo nt m header).1 = anchorCand (nt.norm header) k ∧
+         ∀ j, j < k → m.containsKey (anchorCand (nt.norm header) j) = true := by
+  obtain ⟨u, _, _, e2, hf, hb⟩ := anchorizeMemo_step nt m issued header h
+  rw [e2]
+  refine ⟨?_, u, rfl, fun j hj => (h.keys _).mpr (hb j hj)⟩
+  cases hc : m.containsKey (anchorCand (nt.norm header) u) with
+  | false => rfl
+  | true => exact absurd ((h.keys _).mp hc) hf
+
+/-- **The probes of the memoised loop are linear**: over any sequence of `n` headings one fresh `Anchorizer`
+    makes at most `2n` `contains_key` probes in total (each probe either ends a call or advances a stored
+    counter over a taken candidate, and an issued anchor is such a candidate at most twice). -/
+theorem anchorize_memo_linear (nt : NormTable) (hs : List Bytes) : memoProbesAll nt hs ≤ 2 * hs.length := by
+  have := memoProbesFrom_le nt hs [] [] memoInv_nil AnchorMap.wf_nil
+  simpa [memoProbesAll, AnchorMap.valSum] using this
+
+/-- ... and from any reachable state: the probes for `hs` are at most twice the anchors issued at the end. -/
+theorem anchorize_memo_linear_from (nt : NormTable) (m : AnchorMap) (issued : List Bytes) (hs : List Bytes)
+    (h : MemoInv m issued) (hw : m.WF) :
+    m.valSum + memoProbesFrom nt m hs ≤ 2 * (issued.length + hs.length) :=
+  memoProbesFrom_le nt hs m issued h hw
+
+/-- One call costs exactly what it adds to the stored counters. -/
+theorem anchorize_memo_probes_are_potential (nt : NormTable) (m : AnchorMap) (header : Bytes) :
+    (anchorizeMemo nt m header).2.valSum = m.valSum + anchorizeMemoProbes nt m header :=
+  anchorizeMemo_probes_potential nt m header
+
+/-- **The set-based loop (the code before the repair) is quadratic**: `n` equal headings cost
+    `1 + 2 + ... + n = n(n+1)/2` probes, for every heading text and normalisation table. -/
+theorem anchorize_old_quadratic (nt : NormTable) (h : Bytes) (n : Nat) :
+    oldProbesAll nt (List.replicate n h) = n * (n + 1) / 2 := by
+  have := oldProbesFrom_replicate nt h n 0 [] (by intro j; simp) (Nat.le_refl _)
+  simpa [oldProbesAll] using this
+
+/-! Non-vacuity and concrete runs. -/
+example : anchorizeMemoAll {} [[0x61], [0x41], [0x61, 0x2D, 0x31], [0x61, 0x20, 0x31], [0x61]] =
+    [[0x61], [0x61, 0x2D, 0x31], [0x61, 0x2D, 0x31, 0x2D, 0x31], [0x61, 0x2D, 0x31, 0x2D, 0x32], [0x61, 0x2D, 0x32]] := by decide
+/-- `a`, `a`: with `uniq = 0` the second insert overwrites the entry of the first; then `a ↦ 2`, `a-1 ↦ 0`. -/
+example : memoStateFrom {} [] [[0x61]] = [([0x61], 1)] ∧
+    memoStateFrom {} [] [[0x61], [0x61]] = [([0x61], 2), ([0x61, 0x2D, 0x31], 0)] := by decide
+example : ∃ m issued, MemoInv m issued ∧ m = [([0x61], 1)] ∧ issued = [[0x61]] :=
+  ⟨_, _, (anchorizeMemo_refines {} [] [] [0x61] memoInv_empty).2, by decide, by decide⟩
+example : AnchorMap.WF (memoStateFrom {} [] [[0x61], [0x61]]) :=
+  anchorizeMemo_wf _ _ _ (anchorizeMemo_wf _ _ _ AnchorMap.wf_nil)
+/-- 8 equal headings: 8 probes as it is, 36 before the repair. -/
+example : memoProbesAll {} (List.replicate 8 [0x61]) = 8 ∧ oldProbesAll {} (List.replicate 8 [0x61]) = 36 := by decide
+/-- `a-1 a-2 a-3 a a`: the last call walks over three anchors other headings took (4 probes); 8 ≤ 10 in total. -/
+example : memoProbesAll {} [[0x61, 0x2D, 0x31], [0x61, 0x2D, 0x32], [0x61, 0x2D, 0x33], [0x61], [0x61]] = 8 := by decide
 
 end Comrak.C15
